@@ -303,7 +303,7 @@ def tree_programs(wd, max_ops, max_nodes, sample, rng, kset):
 def c01():
     t0 = time.time()
     wd = workdir("C01")
-    names = gen.NAMES_ASCII + gen.NAMES_UNI
+    names = gen.NAMES_ASCII + gen.NAMES_UNI + gen.NAMES_EDGE
     res = []
     res.append(("ns-small", core.campaign("ns-small", fam_ns("C01", ["K1", "K1b", "K2"], scale(40, 400), 40, names), wd)))
     res.append(("ns-wide", core.campaign("ns-wide", fam_ns("C01", ["K3", "K4b", "K5"], scale(10, 100), 60, names, salt=1), wd)))
@@ -328,6 +328,13 @@ def c02():
     res = []
     res.append(("io-small", core.campaign("io-small", fam_io("C02", ["K1b", "K2"], scale(40, 400), 60), wd)))
     res.append(("io-wide", core.campaign("io-wide", fam_io("C02", ["K3", "K4", "K5"], scale(8, 80), 60, salt=1), wd)))
+    # a storage that transfers fewer bytes than asked (legal for Read/Write): the cursor follows what was transferred
+    rng = rng_for("C02", 9)
+    short = fam_io("C02", ["K1b", "K2", "K5"], scale(10, 100), 50, salt=9)
+    for p in short:
+        p["cfg"] = dict(p["cfg"], short=rng.randrange(1, 1 << 30))
+        p["id"] += "-short"
+    res.append(("io-short", core.campaign("io-short", short, wd)))
     core.finish("C02", LEVEL, res, None, t0,
                 "random and boundary (k*cluster-1, k*cluster, k*cluster+1) seek/read/write/truncate/flush/reopen programs on 1-3 interleaved files; "
                 "TLC evaluates the byte-array model on every event",
@@ -337,7 +344,7 @@ def c02():
 def c03():
     t0 = time.time()
     wd = workdir("C03")
-    names = gen.NAMES_ASCII + gen.NAMES_UNI
+    names = gen.NAMES_ASCII + gen.NAMES_UNI + gen.NAMES_EDGE
     res = []
     res.append(("ns", core.campaign("ns", fam_ns("C03", ["K1", "K1b", "K2", "K5"], scale(25, 250), 40, names), wd)))
     res.append(("io", core.campaign("io", fam_io("C03", ["K1b", "K2", "K3"], scale(15, 150), 50), wd)))
@@ -352,7 +359,7 @@ def c03():
 def c04():
     t0 = time.time()
     wd = workdir("C04")
-    names = gen.NAMES_ASCII + gen.NAMES_UNI
+    names = gen.NAMES_ASCII + gen.NAMES_UNI + gen.NAMES_EDGE
     res = []
     res.append(("ns", core.campaign("ns", fam_ns("C04", ["K1b", "K2", "K3", "K5"], scale(20, 200), 40, names), wd)))
     res.append(("io", core.campaign("io", fam_io("C04", ["K1b", "K2", "K4", "K5"], scale(15, 150), 50), wd)))
@@ -658,6 +665,8 @@ def fam_foreign(prop, n_per_ft, salt=0, n_ops=12):
         for i in range(n_per_ft):
             vol, cs, oem = gen.foreign_volume(rng, ft, quick=(core.tier() == "quick"))
             progs.append(gen.foreign_program(rng, "foreign-%d-%d" % (ft, i), vol, cs, oem, n_ops=n_ops))
+    for i in range(max(4, n_per_ft // 3)):
+        progs.append(gen.foreign_high_program(rng, "foreign-high-%d" % i))
     return progs
 
 
@@ -672,7 +681,8 @@ def c08():
                 "flags, 0x05 lead byte, OEM bytes, labels anywhere, all attribute bits, full clusters without END marker, slack sectors): TLC compares the "
                 "library's listing and Abs(raw) with the builder's ground truth, then judges library mutations with the structural invariants and the "
                 "frame clauses (FAT entries, slot digests, BAD marks, inactive copies, high nibbles)",
-                ASSUME_TRACE + ["the image builder produces specification-valid volumes (checked: TLC evaluates the structural invariants on every built image, C08.valid_input)"])
+                ASSUME_TRACE + ["the image builder produces specification-valid volumes (checked: TLC evaluates the structural invariants on every built image, C08.valid_input)"],
+                extra_prefixes=("C00.", "C03."))   # "modifying such a volume keeps it valid": the structural clauses are C08's on these volumes
 
 
 def small_foreign(rng, ft=12, **kw):
